@@ -82,4 +82,14 @@ inductive Res
   | panic
 deriving DecidableEq, Repr
 
+/-- How building the channel over a flat script ended (`none`: a lazy channel is not connected
+when built). -/
+inductive SessBuild
+  | none
+  | ok
+  | fail (e : Nat)
+  | hang
+  | panic
+deriving DecidableEq, Repr
+
 end ConnScript
